@@ -276,6 +276,20 @@ def assignment_world(idx):
                     r["clip_right" if strand == "+" else "clip_left"] = ("A" if strand == "+" else "T") * 30
                 reads.append(r)
                 k += 1
+    # reads whose polyT head AND polyA tail are both aligned as short terminal blocks behind spurious introns (each side is trimmed by its
+    # own branch; the mirror image of such a read has both as well)
+    for tid, (chrom, strand, ex, g) in iso.items():
+        if len(ex) < 2 or g != "G1" or ex[0][0] - 400 < 1:
+            continue
+        for clips in (0, 1):
+            bl = [[ex[0][0] - 400, ex[0][0] - 376]] + [list(b) for b in ex] + [[ex[-1][1] + 376, ex[-1][1] + 400]]
+            r = {"name": "bothtails%d_%s_%d" % (clips, tid, k), "chr": chrom, "blocks": bl, "reverse": strand == "-",
+                 "block_seq": {0: "T" * 25, len(bl) - 1: "A" * 25}}
+            if clips:
+                r["clip_left"] = "T" * 10
+                r["clip_right"] = "A" * 10
+            reads.append(r)
+            k += 1
     # mono-exonic reads next to the gene boundaries: adjacent to the first / last base without overlapping it, and overlapping exactly
     # one base of the gene (whether the gene is "seen" for the read must not depend on the side)
     g1 = [ex for tid, (chrom, strand, ex, g) in iso.items() if g == "G1"]
